@@ -61,6 +61,10 @@ CONFIGS = [
     ("tree2_live", "MC_Flurry", "MC_tree2_live.cfg", {"C11"}, "ok", "thorough", []),
     ("clr1_live", "MC_Flurry", "MC_clr1_live.cfg", {"C11"}, "ok", "thorough", []),
     ("clr2_live", "MC_Flurry", "MC_clr2_live.cfg", {"C11"}, "ok", "thorough", []),
+    # a whole resize generation (add_count start, stride claims, forwarding, leave / finish, publication) with helpers
+    ("rz1_live", "MC_Flurry", "MC_rz1_live.cfg", {"C11"}, "ok", "thorough", []),
+    # reserve() / try_presize racing the lazy initialisation and an insert: every presize loop terminates
+    ("rsv1_live", "MC_Flurry", "MC_rsv1_live.cfg", {"C11"}, "ok", "thorough", []),
     ("sizing", "Sizing", "Sizing.cfg", {"C14", "C10"}, "ok", "quick", []),
     ("reclaim", "Reclaim", "MC_Reclaim.cfg", {"C03", "C04"}, "ok", "quick", []),
     ("reclaim_unprotected", "Reclaim", "MC_Reclaim_unprotected.cfg", {"C03"}, "NoUseAfterFree", "quick", []),
